@@ -2,8 +2,11 @@
 package c14
 
 import (
+	"time"
+
 	"encoding/json"
 	"fmt"
+	"github.com/ErdemOzgen/blackdagger/internal/persistence/model"
 	"testing"
 
 	"github.com/ErdemOzgen/blackdagger/internal/dag"
@@ -73,6 +76,40 @@ func admitted(g Graph) error {
 	return err
 }
 
+// admittedRetry: the other way into execution — the steps of a recorded run
+// (here: every step recorded failed, or alternately finished / failed) are
+// handed to the retry graph builder the way `retry` does it, through the
+// persistence encoding. hung reports that the builder did not return.
+func admittedRetry(g Graph, mayHang bool) (err error, hung bool) {
+	data := make([]scheduler.NodeData, len(g.Names))
+	for i, n := range g.Names {
+		st := scheduler.NodeStatusError
+		if (len(g.Names)+i)%3 == 0 {
+			st = scheduler.NodeStatusSuccess
+		}
+		data[i] = scheduler.NodeData{Step: dag.Step{Name: n, Command: "true", Depends: g.Deps[i]}, State: scheduler.NodeState{Status: st}}
+	}
+	var nodes []*scheduler.Node
+	for _, mn := range model.FromNodes(data) {
+		nodes = append(nodes, mn.ToNode())
+	}
+	if !mayHang {
+		_, err = scheduler.NewExecutionGraphForRetry(sim.Quiet, nodes...)
+		return err, false
+	}
+	ch := make(chan error, 1)
+	go func() {
+		_, err := scheduler.NewExecutionGraphForRetry(sim.Quiet, nodes...)
+		ch <- err
+	}()
+	select {
+	case err = <-ch:
+		return err, false
+	case <-time.After(3 * time.Second * time.Duration(sim.LoadFactor())):
+		return nil, true
+	}
+}
+
 func judge(g Graph) (string, string) {
 	ok, class := wellFormed(g)
 	err := admitted(g)
@@ -81,6 +118,15 @@ func judge(g Graph) (string, string) {
 	}
 	if !ok && err == nil {
 		return fmt.Sprintf("%s graph admitted for execution", class), class
+	}
+	rerr, hung := admittedRetry(g, !ok)
+	switch {
+	case hung:
+		return fmt.Sprintf("%s graph handed to the retry of a recorded run: the graph builder never returns instead of refusing it", class), class
+	case ok && rerr != nil:
+		return fmt.Sprintf("well-formed graph refused for the retry of a recorded run: %v", rerr), class
+	case !ok && rerr == nil:
+		return fmt.Sprintf("%s graph admitted for execution as the retry of a recorded run", class), class
 	}
 	return "", class
 }
